@@ -3,3 +3,4 @@ import RSVerif.Properties.C02
 #print axioms RS.encode_low_eq_cauchy
 #print axioms RS.encode_slot_eq_matrix
 #print axioms RS.encode_pure
+#print axioms RS.flat_encode_is_cauchy
